@@ -1,4 +1,5 @@
-import Eru.CpuMem.Spec
+import Eru.CpuMem.ProofsAffinity
+import Eru.CpuMem.ProofsFloat
 /-
 C33 — re-allocating a bound workload without change keeps its cores.
 -/
@@ -31,5 +32,148 @@ theorem affinity_keeps_counterexample : ¬ PropC33 := by
     (by decide) (by decide) (by decide) (by decide) (by decide) (by decide)
   revert this
   decide
+
+
+/-! ### the proved part -/
+
+theorem post_bind (w : RawReq) : w.post.bind = w.bind := by
+  unfold RawReq.post
+  dsimp only
+  repeat' split
+  all_goals rfl
+
+theorem post_cpuReq (w : RawReq) (h : w.cpuLim = w.cpuReq) : w.post.cpuReq = w.cpuReq := by
+  unfold RawReq.post
+  dsimp only
+  repeat' split
+  all_goals (first | rfl | (simp_all; try omega) | omega)
+
+theorem has_mapSub (c p : Eru.Plan) (k : String) (h : c.has k = true) : (mapSub c p).has k = true := by
+  unfold mapSub
+  induction p generalizing c with
+  | nil => simpa using h
+  | cons kv rest ih =>
+    simp only [List.foldl_cons]
+    exact ih _ (by rw [Plan.has_add]; simp [h])
+
+/-- **affinity_keeps_partial**: the property holds on nodes without NUMA topology for whole-core
+    workloads.  Guards (each explicit): no NUMA map; every core's capacity is one share `B`
+    (`wholeCoreNode`); the workload's map has distinct keys, is non-empty and gives `B` pieces per core;
+    its cores are used by it alone (`usage = B`, which `Validate` forces on a whole-core node once the
+    workload lives there); its recorded CPU request is its number of cores (C05) with limit = request. -/
+theorem affinity_keeps_partial (info : NodeInfo) (B maxShare : Int) (w : Workload) (dm : Int) (w' : Workload)
+    (hB : 1 ≤ B) (hB2 : (w.cpuMap.length : Int) * B ≤ 2 ^ 50)
+    (hck : info.cap.cpuMap.keys.Nodup) (huk : info.use.cpuMap.keys.Nodup) (hnuma : info.cap.numa = [])
+    (hwhole : wholeCoreNode B info = true)
+    (hMk : w.cpuMap.keys.Nodup) (hM1 : w.cpuMap ≠ []) (hMv : ∀ kv ∈ w.cpuMap, kv.2 = B) (hwn : w.numa = "")
+    (hlive : ∀ k ∈ w.cpuMap.keys, info.cap.cpuMap.has k = true ∧ info.use.cpuMap.get k = B)
+    (hreq : w.cpuReq = (w.cpuMap.length : Int) * 1000 ∧ w.cpuLim = w.cpuReq)
+    (h : calculateRealloc info B maxShare w (keepReq dm) [] = .ok w') :
+    mapEq w'.cpuMap w.cpuMap = true ∧ w'.numa = w.numa := by
+  have hlenM : 1 ≤ w.cpuMap.length := by
+    cases hm : w.cpuMap with
+    | nil => exact absurd hm hM1
+    | cons _ _ => simp
+  have hne : w.cpuMap.isEmpty = false := by
+    cases hm : w.cpuMap with
+    | nil => exact absurd hm hM1
+    | cons _ _ => rfl
+  unfold calculateRealloc keepReq at h
+  simp only [ne_eq, not_true_eq_false, or_self, if_false, hne, Bool.not_false, if_true] at h
+  -- request validation
+  generalize hnr : ({ bind := true, cpuReq := w.cpuReq, cpuLim := w.cpuLim, memReq := dm + w.memReq, memLim := dm + w.memLim } : RawReq) = newReq at h
+  have hnb : newReq.bind = true := by rw [← hnr]
+  have hnc : newReq.cpuReq = w.cpuReq := by rw [← hnr]
+  have hnl : newReq.cpuLim = newReq.cpuReq := by rw [← hnr]; exact hreq.2
+  have hcpos : 0 < w.cpuReq := by rw [hreq.1]; omega
+  cases hv : newReq.validate with
+  | err e => rw [hv] at h; cases h
+  | panic m => rw [hv] at h; cases h
+  | diverge => rw [hv] at h; cases h
+  | ok w2 =>
+    rw [hv] at h
+    simp only [] at h
+    have hw2 : w2 = newReq.pre.post := by
+      unfold RawReq.validate at hv
+      split at hv
+      · cases hv
+      · split at hv
+        · cases hv
+        · split at hv
+          · cases hv
+          · exact (Outcome.ok.inj hv).symm
+    have hpre : newReq.pre = newReq := by
+      unfold RawReq.pre; rw [if_neg (by omega)]
+    have hw2b : w2.bind = true := by rw [hw2, post_bind, hpre, hnb]
+    have hw2c : w2.cpuReq = w.cpuReq := by rw [hw2, hpre, post_cpuReq _ hnl, hnc]
+    -- the scheduler call
+    generalize hi' : ({ cap := info.cap, use := info.use.sub { cpuMap := w.cpuMap, mem := w.memReq, numaMem := w.numaMem } } : NodeInfo) = info' at h
+    have hcap' : info'.cap = info.cap := by rw [← hi']
+    have hav : info'.available.cpuMap = mapSub info.cap.cpuMap (mapSub info.use.cpuMap w.cpuMap) := by
+      rw [← hi']; rfl
+    cases hg : getCPUPlans info' w.cpuMap B maxShare w2.toReq [] with
+    | err e => rw [hg] at h; cases h
+    | panic m => rw [hg] at h; cases h
+    | diverge => rw [hg] at h; cases h
+    | ok ps =>
+      rw [hg] at h
+      cases ps with
+      | nil => cases h
+      | cons pl rest =>
+        simp only [Outcome.ok.injEq] at h
+        subst h
+        simp only []
+        -- non-NUMA: the plan list is the cross-NUMA group
+        unfold getCPUPlans at hg
+        rw [if_neg (by omega), hcap', hnuma] at hg
+        simp only [numaLoop, List.nil_append] at hg
+        split at hg
+        · rename_i cross hcr
+          cases cross with
+          | nil => simp at hg
+          | cons c cs =>
+            simp only [List.map_cons, Outcome.ok.injEq, List.cons.injEq] at hg
+            obtain ⟨hpl, _⟩ := hg
+            subst hpl
+            simp only []
+            refine ⟨?_, hwn.symm⟩
+            -- hypotheses of the affinity argument
+            obtain ⟨u1, u2⟩ := mapSub_spec info.use.cpuMap w.cpuMap huk hMk
+            obtain ⟨a1, a2⟩ := mapSub_spec info.cap.cpuMap (mapSub info.use.cpuMap w.cpuMap) hck u1
+            have hpieces : piecesRequest w2.toReq B = (w.cpuMap.length : Int) * B := by
+              unfold piecesRequest RawReq.toReq
+              simp only [hw2c, hreq.1]
+              have e1 : ((w.cpuMap.length : Int) * 1000).toNat = w.cpuMap.length * 1000 := by omega
+              rw [e1]
+              have hBn : (B.toNat : Int) = B := Int.toNat_of_nonneg (by omega)
+              have := Eru.Float64.piecesRound_exact' (w.cpuMap.length * 1000) 1000 B.toNat (w.cpuMap.length * B.toNat)
+                (by omega) (Nat.mul_pos (by omega) (by omega)) (by
+                  have : ((w.cpuMap.length * B.toNat : Nat) : Int) ≤ 2 ^ 50 := by push_cast; rw [hBn]; exact hB2
+                  exact_mod_cast this) (by omega) (by ring)
+              rw [this]; push_cast; rw [hBn]
+            apply doGet_affinity_keeps w.cpuMap info'.available.cpuMap info'.available.mem B hB maxShare w2.toReq
+              hMk hM1 hMv (by rw [hav]; exact a1) ?_ hpieces c cs hcr
+            intro k hk
+            obtain ⟨hcapk, husek⟩ := hlive k hk
+            have hMg : w.cpuMap.get k = B := hMv _ (has_mem_get w.cpuMap k ((has_eq_mem_keys _ k).mpr hk))
+            have hcg : info.cap.cpuMap.get k = B := by
+              have hm := has_mem_get info.cap.cpuMap k hcapk
+              unfold wholeCoreNode at hwhole
+              rw [List.all_eq_true] at hwhole
+              have := hwhole _ hm
+              simpa using this
+            rw [hav]
+            refine ⟨?_, has_mapSub _ _ k hcapk⟩
+            rw [a2 k, u2 k, hcg, husek, hMg]
+            simp only [isFull, Int.sub_self, Int.sub_zero, Int.le_refl, decide_true, Bool.true_and, decide_eq_true_eq]
+            exact Int.tmod_self
+        all_goals cases hg
+
+/-- the guards are satisfiable: a two-core workload on a four-core node keeps its cores -/
+example : calculateRealloc
+    { cap := { cpuMap := [("0",100),("1",100),("2",100),("3",100)], mem := 1000 },
+      use := { cpuMap := [("0",0),("1",100),("2",100),("3",30)], mem := 10 } } 100 (-1)
+    { cpuReq := 2000, cpuLim := 2000, memReq := 10, memLim := 10, cpuMap := [("2",100),("1",100)] } (keepReq 5) []
+    = .ok { cpuReq := 2000, cpuLim := 2000, memReq := 15, memLim := 15, cpuMap := [("1",100),("2",100)] } := by decide
 
 end Eru.Props.C33
